@@ -85,6 +85,8 @@ def drive_socket(case, data):
             events.append("timeout")
         elif f == 2:
             events.append("oserror")
+        elif f == 3:
+            events.append("oserror:connreset")
     events.append("close")
     sock = ScriptedSocket(events)
     sock.budget = 6 * len(data) + 8 * len(events) + 256
@@ -188,7 +190,7 @@ def o_stream(case):
 
 @st.composite
 def s_stream(draw, tier):
-    items = draw(st.lists(streams.adversarial_items("small"), min_size=1, max_size=12))
+    items = streams.flatten(draw(st.lists(streams.adversarial_items("small"), min_size=1, max_size=12)))
     if draw(st.integers(0, 3)) == 0:
         n = sum(len(i["b"]) // 2 for i in items)
         return {
@@ -197,7 +199,7 @@ def s_stream(draw, tier):
             "qoe": draw(st.sampled_from([0, 1, 2])),
             "stream": "socket",
             "cuts": draw(streams.partitions(n)),
-            "faults": draw(st.lists(st.sampled_from([0, 0, 1, 1, 2]), min_size=0, max_size=8)),
+            "faults": draw(st.lists(st.sampled_from([0, 0, 1, 1, 2, 3]), min_size=0, max_size=8)),
             "bufsize": draw(st.sampled_from([1, 3, 64, 512, 4096])),
         }
     script = draw(st.one_of(st.just([]), streams.read_scripts(64)))
